@@ -22,6 +22,7 @@ import (
 // are read by the multiConsumer goroutines of the join/union node: the write order only biases the
 // arrival interleaving), then `task run`: start, write, Drain (parents end, Finish flushes), Wait, read sink.
 type taskRun struct {
+	spec   int      // joinon: the parent grouped by more dimensions than on()
 	win    int64    // joinb: window period = every (ns)
 	inputs []string // joinb: `task bin` lines: the batches that entered the join, parent by parent
 	kind   string
@@ -51,6 +52,15 @@ func (t *taskRun) script() string {
 		gb = ".groupBy(" + strings.Join(ds, ",") + ")"
 	}
 	for i := 0; i < t.cfg.n; i++ {
+		if t.kind == "joinon" {
+			// join.on('h'): the specific parent is grouped by cpu AND host, the others by host only
+			g := ".groupBy('h')"
+			if i == t.spec {
+				g = ".groupBy('c', 'h')"
+			}
+			fmt.Fprintf(&b, "var p%d = stream|from().measurement('m%d')%s\n", i, i, g)
+			continue
+		}
 		if t.kind == "joinb" {
 			// batch join: both parents window the stream; a sink in front of the join records what enters it
 			fmt.Fprintf(&b, "var p%d = stream|from().measurement('m%d')%s|window().period(%du).every(%du).align()@bsink()\n", i, i, gb, t.win/1000, t.win/1000)
@@ -82,7 +92,7 @@ func (r *runner) taskOp(t []string) string {
 	switch t[1] {
 	case "new":
 		m := kv(t[2:])
-		tr := &taskRun{kind: m["kind"], cfg: parseJoinCfg(t[2:]), rename: un(m["rename"]), win: atoi(m["win"])}
+		tr := &taskRun{kind: m["kind"], cfg: parseJoinCfg(t[2:]), rename: un(m["rename"]), win: atoi(m["win"]), spec: int(atoi(m["spec"]))}
 		for _, d := range splitList(m["dims"]) {
 			tr.dims = append(tr.dims, un(d))
 		}
@@ -173,7 +183,7 @@ func (t *taskRun) run() string {
 			}
 		}
 	}
-	if t.kind == "join" {
+	if t.kind == "join" || t.kind == "joinon" {
 		sort.Strings(es) // a multiset: the emission order depends on the schedule
 	}
 	return strings.Join(append([]string{strconv.Itoa(len(es))}, es...), " ")
@@ -240,7 +250,10 @@ func (t *taskRun) batchResult(tm *kit.TM, keys []string) string {
 // ---- generator ----
 
 func genTask(r *kit.Rand) []string {
-	kind := kit.Pick(r, []string{"join", "join", "union", "joinb"})
+	kind := kit.Pick(r, []string{"join", "join", "union", "joinb", "joinon"})
+	if kind == "joinon" {
+		return genTaskOn(r)
+	}
 	n := kit.Pick(r, []int{2, 2, 3})
 	ms := int64(1000000)
 	tol := kit.Pick(r, []int64{0, 0, 10 * ms, 1000 * ms})
@@ -310,6 +323,57 @@ func genTask(r *kit.Rand) []string {
 	if kind == "union" {
 		cfg = fmt.Sprintf("kind=union n=%d tol=0 names=%s dims=%s rename=%s", n, strings.Join(names, ","), dims, kit.Pick(r, []string{"%", "%", "u"}))
 	}
+	var ops []string
+	for _, pat := range []int{r.Intn(2), 2 + r.Intn(3)} {
+		ops = append(ops, "task new "+cfg)
+		for _, a := range merge(r, lens, pat) {
+			it := seqs[a[0]][a[1]]
+			ops = append(ops, fmt.Sprintf("task w %d %d tags=%s fields=%s", a[0], it.t, it.tags, it.fields))
+		}
+		ops = append(ops, "task run")
+	}
+	return ops
+}
+
+// genTaskOn: a real task `p0|join(p1).on('h')` with one parent grouped by cpu and host, the other by host.
+func genTaskOn(r *kit.Rand) []string {
+	ms := int64(1000000)
+	fill := kit.Pick(r, []string{"none", "null", "i:0"})
+	spec := r.Intn(2)
+	type item struct {
+		t            int64
+		tags, fields string
+	}
+	seqs := make([][]item, 2)
+	id := 1
+	t := int64(1700000000) * 1000 * ms
+	lagging := -1
+	if r.Chance(1, 3) {
+		lagging = r.Intn(2)
+	}
+	for slot := 0; slot < 3+r.Intn(7); slot++ {
+		t += int64(kit.Pick(r, []int{1, 2, 5, 30})) * ms
+		for _, h := range []string{"x", "y"} {
+			for i := 0; i < 2; i++ {
+				if i == lagging && r.Chance(1, 2) {
+					continue
+				}
+				if i == spec {
+					for _, c := range []string{"1", "2"} {
+						for k := kit.Pick(r, []int{0, 1, 1, 2}); k > 0; k-- {
+							seqs[i] = append(seqs[i], item{t, "h=" + h + ",c=" + c, fmt.Sprintf("id=i:%d", id)})
+							id++
+						}
+					}
+				} else if r.Chance(3, 4) {
+					seqs[i] = append(seqs[i], item{t, "h=" + h, fmt.Sprintf("id=i:%d", id)})
+					id++
+				}
+			}
+		}
+	}
+	lens := []int{len(seqs[0]), len(seqs[1])}
+	cfg := fmt.Sprintf("kind=joinon n=2 tol=0 names=a,b fill=%s on=h spec=%d dims=h", fill, spec)
 	var ops []string
 	for _, pat := range []int{r.Intn(2), 2 + r.Intn(3)} {
 		ops = append(ops, "task new "+cfg)
